@@ -4,7 +4,7 @@
 EXTENDS Adapter
 CONSTANT MaxSegs
 VARIABLE c
-Cases == PathCases(MaxSegs) \cup DispatchCases \cup {x \in ErrCases : ~(x.wrap # "bare" /\ (x.err = "nil" \/ SubSeq(x.err, 1, 3) = "fx:" \/ x.err = "io.EOF" \/ x.err = "io.ErrUnexpectedEOF" \/ x.err = "custom"))}
+Cases == PathCases(MaxSegs) \cup DispatchCases \cup {x \in ErrCases : ~(x.wrap # "bare" /\ (x.err = "nil" \/ SubSeq(x.err, 1, 3) = "fx:" \/ x.err = "io.ErrUnexpectedEOF" \/ x.err = "custom"))}
 Init == c \in Cases
 Next == UNCHANGED c
 Spec == Init /\ [][Next]_c
